@@ -20,6 +20,14 @@ import LuaHelper.Props.C05
 namespace LuaHelper.C14
 open LuaHelper.Lex LuaHelper.Scope LuaHelper.C05
 
+/-- `GetCompleteVar` as it stands in /repo now (regenerated on every run): per name of a scope, the last
+    declaration that passes `IsCorrectPosition` is offered; then the parent scope -/
+theorem complete_code_shape :
+    Gen.completeVarShape =
+      ["range scope.LocVarMap {if !IsCompleteNeedShow(strName,completeVar) {continue};if cache.ExistStr(strName) {continue};for index:=len(locInfoList.VarVec)-1;index>=0;index-- {if !locVar.IsCorrectPosition(loc) {continue};call:InsertCompleteVar;break}}",
+       "if scope.Parent!=nil {}"] := by rfl
+#print axioms complete_code_shape
+
 /-- the per-scope candidate test of `GetCompleteVar` -/
 def offered (d : Var) (line col : Int) : Bool := isCorrectPosition d (pt line col)
 
